@@ -105,6 +105,14 @@ type APIJob struct {
 	Cfg    Config `json:"cfg"`
 	Behs   []Beh  `json:"behs"`
 	AllObs bool   `json:"all_obs,omitempty"` // return the observation after every step (explanation pass)
+	// Faults (fault stage; parallel to Behs when present): during the LAST operation of the history the
+	// user-defined hash (mode 1) or == (mode 2) of every object standing for model key Key raises.
+	Faults []Fault `json:"faults,omitempty"`
+}
+
+type Fault struct {
+	Key  int `json:"key"`
+	Mode int `json:"mode"`
 }
 
 // Obs is what is observed on the real collections after a step.
@@ -124,6 +132,7 @@ type Obs struct {
 	Cls   [2]string `json:"cls"`
 	Panic string   `json:"panic,omitempty"`
 	Err   string   `json:"err,omitempty"`
+	FaultErr string `json:"fault_err,omitempty"` // fault stage: the error the faulted last operation reported (observation follows after the repair)
 	Skip  string   `json:"skip,omitempty"` // the history uses an operation this implementation does not have
 }
 
@@ -150,6 +159,27 @@ class K
   init(@id: Int, @h: UInt64); end
   pure def hash: UInt64 then @h
   sealed def ==(other: any): bool
+    switch other
+    case K() as k then return k.id == @id
+    end
+    false
+  end
+end
+`
+
+// keyClassFaultSrc: the same key class with a switch that makes hash (1) or == (2) raise.
+const keyClassFaultSrc = `
+class K
+  attr id: Int, h: UInt64, broken: Int
+  init(@id: Int, @h: UInt64)
+    @broken = 0
+  end
+  pure def hash: UInt64
+    throw unchecked "key fault: hash" if @broken == 1
+    @h
+  end
+  sealed def ==(other: any): bool
+    throw unchecked "key fault: ==" if @broken == 2
     switch other
     case K() as k then return k.id == @id
     end
@@ -299,7 +329,11 @@ func buildKeys(j *APIJob) (*keyset, error) {
 	var objs []value.Value
 	if needObj {
 		var sb strings.Builder
-		sb.WriteString(keyClassSrc)
+		if len(j.Faults) > 0 {
+			sb.WriteString(keyClassFaultSrc)
+		} else {
+			sb.WriteString(keyClassSrc)
+		}
 		sb.WriteString("[")
 		first := true
 		for k := 1; k <= j.NKeys; k++ {
@@ -724,13 +758,34 @@ func runAPIJob(j *APIJob) (any, error) {
 		return nil, err
 	}
 	out := make([]BehResult, len(j.Behs))
+	if len(j.Faults) > 0 && len(j.Faults) != len(j.Behs) {
+		return nil, fmt.Errorf("%d faults for %d histories", len(j.Faults), len(j.Behs))
+	}
 	for bi := range j.Behs {
-		out[bi] = runBeh(j, ks, &j.Behs[bi])
+		var f Fault
+		if len(j.Faults) > 0 {
+			f = j.Faults[bi]
+		}
+		out[bi] = runBeh(j, ks, &j.Behs[bi], f)
 	}
 	return out, nil
 }
 
-func runBeh(j *APIJob, ks *keyset, b *Beh) (br BehResult) {
+var brokenSym value.Symbol
+var brokenOnce sync.Once
+
+// setBroken flips the fault switch of every object standing for model key k.
+func (ks *keyset) setBroken(k, mode int) error {
+	brokenOnce.Do(func() { brokenSym = value.ToSymbol("broken=") })
+	for _, v := range ks.reps[k-1] {
+		if _, err := ks.thread.CallMethodByName(brokenSym, v, value.SmallInt(mode).ToValue()); !err.IsUndefined() {
+			return fmt.Errorf("broken=: %s", err.Inspect())
+		}
+	}
+	return nil
+}
+
+func runBeh(j *APIJob, ks *keyset, b *Beh, fault Fault) (br BehResult) {
 	rn := &runner{j: j, ks: ks, th: ks.thread, i64: i64Valued(j.Cfg.Impl[0]) || i64Valued(j.Cfg.Impl[1])}
 	for c := 0; c < 2; c++ {
 		r, err := newReg(j.Cfg.Impl[c], b.Caps[c])
@@ -756,8 +811,24 @@ func runBeh(j *APIJob, ks *keyset, b *Beh) (br BehResult) {
 					stop = true
 				}
 			}()
-			res, fail := rn.apply(o)
+			faulted := fault.Key > 0 && i == len(b.Ops)-1
+			if faulted {
+				if err := ks.setBroken(fault.Key, fault.Mode); err != nil {
+					ob.Err = err.Error()
+					stop = true
+					return
+				}
+			}
+			res, fail := func() (int, *stepFail) {
+				if faulted {
+					defer ks.setBroken(fault.Key, 0)
+				}
+				return rn.apply(o)
+			}()
 			ob.Res = res
+			if faulted && fail != nil && fail.skip == "" {
+				ob.FaultErr, ob.Res, fail = fail.err, -1, nil
+			}
 			if fail != nil {
 				ob.Err, ob.Skip = fail.err, fail.skip
 				stop = true
